@@ -219,8 +219,8 @@ theorem step_APPLY (hr : Spec.step env .APPLY st ≠ .stuck) :
     cases ta <;> first | (exact absurd rfl hr) | skip
     rename_i lt rt
     simp only [Spec.step] at hr ⊢
-    by_cases h : typeOf a = lt
-    · simp [Impl.step, h]
+    by_cases h : typeOf a = lt ∧ Typing.pushable lt = true
+    · simp [Impl.step, h, h.1]
     · simp [h] at hr
 
 theorem step_CONS (hr : Spec.step env .CONS st ≠ .stuck) :
@@ -552,7 +552,7 @@ theorem step_GET_AND_UPDATE (hr : Spec.step env .GET_AND_UPDATE st ≠ .stuck) :
   · exact absurd (by cases a <;> rfl) hr
   · exact absurd (by cases a <;> rfl) hr
   have hs : Spec.step env .GET_AND_UPDATE (a :: b :: c :: st)
-      = (Spec.getAndUpdateV a b c).bind fun r => .ok (r.1 :: r.2 :: st) := rfl
+      = (Spec.getAndUpdateB a b c).bind fun r => .ok (r.1 :: r.2 :: st) := rfl
   rw [hs] at hr ⊢
   have h1 := bind_ne_stuck_step hr
   have hi : Impl.step env .GET_AND_UPDATE (stk pre (a :: b :: c :: st))
@@ -560,8 +560,8 @@ theorem step_GET_AND_UPDATE (hr : Spec.step env .GET_AND_UPDATE st ≠ .stuck) :
             let r ← Impl.execGetAndUpdate a b c
             pure ((s.push r.2).push r.1)) := rfl
   rw [hi, pop3_mk_cons]
-  simp only [Res.bind_ok, execGetAndUpdate_eq a b c h1]
-  cases hq : Spec.getAndUpdateV a b c with
+  simp only [Res.bind_ok, execGetAndUpdateB_eq a b c h1]
+  cases hq : Spec.getAndUpdateB a b c with
   | stuck => exact absurd hq h1
   | failed _ => simp
   | rtfail => simp
@@ -733,14 +733,14 @@ theorem step_refines (env : Env) (i : Instr) (pre st : List Val) (hr : Spec.step
     · simp [Impl.step, h]
     · simp [h] at hr
   case MEM =>
-    exact step_binop env pre st .MEM Spec.memV Impl.execMem (fun _ _ _ => rfl) rfl (fun a => by cases a <;> rfl)
-      (fun _ => rfl) execMem_eq hr
+    exact step_binop env pre st .MEM Spec.memB Impl.execMem (fun _ _ _ => rfl) rfl (fun a => by cases a <;> rfl)
+      (fun _ => rfl) execMemB_eq hr
   case GET =>
-    exact step_binop env pre st .GET Spec.getV Impl.execGet (fun _ _ _ => rfl) rfl (fun a => by cases a <;> rfl)
-      (fun _ => rfl) execGet_eq hr
+    exact step_binop env pre st .GET Spec.getB Impl.execGet (fun _ _ _ => rfl) rfl (fun a => by cases a <;> rfl)
+      (fun _ => rfl) execGetB_eq hr
   case UPDATE =>
-    exact step_ternop env pre st .UPDATE Spec.updateV Impl.execUpdate (fun _ _ _ _ => rfl) rfl (fun a => by cases a <;> rfl)
-      (fun a b => by cases a <;> rfl) (fun _ => rfl) execUpdate_eq hr
+    exact step_ternop env pre st .UPDATE Spec.updateB Impl.execUpdate (fun _ _ _ _ => rfl) rfl (fun a => by cases a <;> rfl)
+      (fun a b => by cases a <;> rfl) (fun _ => rfl) execUpdateB_eq hr
   case GET_AND_UPDATE => exact step_GET_AND_UPDATE env pre st hr
   case NEVER =>
     refine absurd ?_ hr
@@ -778,9 +778,20 @@ theorem step_refines (env : Env) (i : Instr) (pre st : List Val) (hr : Spec.step
   case PACK =>
     exact step_unop env pre st .PACK (Spec.unV env .PACK) (Impl.execUn env .PACK) (fun _ _ => rfl) rfl (fun _ => rfl)
       (execUn_eq env .PACK) hr
+  case UNPACK t =>
+    exact step_unop env pre st (.UNPACK t) (Spec.unV env (.UNPACK t)) (Impl.execUn env (.UNPACK t)) (fun _ _ => rfl) rfl
+      (fun _ => rfl) (execUn_eq env (.UNPACK t)) hr
   case TRANSFER_TOKENS =>
     exact step_ternop env pre st .TRANSFER_TOKENS (Spec.transferTokensV env) (Impl.execTransferTokens env) (fun _ _ _ _ => rfl) rfl
       (fun a => rfl) (fun a b => rfl) (fun _ => rfl) (execTransferTokens_eq env) hr
+  case EMPTY_BIG_MAP k v =>
+    simp only [Spec.step, Spec.stepMore, Spec.stepExt] at hr ⊢
+    by_cases h : (Typing.simpleComparable k && Typing.bigMapValue v) = true
+    · simp [Impl.step, Impl.stepMore, Impl.stepExt, h]
+    · simp [h] at hr
+  case CHECK_SIGNATURE =>
+    exact step_ternop env pre st .CHECK_SIGNATURE (Spec.checkSignatureV env) (Impl.execCheckSignature env) (fun _ _ _ _ => rfl) rfl
+      (fun a => rfl) (fun a b => rfl) (fun _ => rfl) (execCheckSignature_eq env) hr
   case PAIRN n => exact step_PAIRN env pre st n hr
   case UNPAIRN n => exact step_UNPAIRN env pre st n hr
   case GETN n => exact step_GETN env pre st n hr
